@@ -72,6 +72,16 @@ CHECKS["C09"] = ("vcheck", "proptest requests with 0-2 OPT records anywhere and 
     "Generated search with shrinking; exactly one OPT (root, class = server payload, version 0, additional) iff an OPT is reached; BADVERS; non-root owner.",
     _S, "§4 C09")
 
+CHECKS["C04"] = ("vcheck", "proptest catalogs with large RRsets/delegations; each query sent over UDP and TCP to the same server; metamorphic/differential: the TCP response is the complete response and fixes the truncation thresholds",
+    "Generated search with shrinking; size limit, TC rules, octet-identity when the complete response fits, sub-multiset relation with all in-bailiwick glue present when only optional data is dropped, TC when the mandatory part does not fit.",
+    _S + " Requests without TSIG; TCP SERVFAIL pairs skipped and counted.", "§4 C04")
+CHECKS["C10"] = ("vcheck", "proptest key sets and requests signed by an independent RFC 8945 signer (wrong key/secret/algorithm, truncation, time offsets, tampering); verdict from the request scanner, response MAC recomputed independently, twin comparison with the unsigned request",
+    "Generated search with shrinking; six outcome classes (authenticated, BADSIG, BADKEY, BADTIME, MAC-length FORMERR, FORMERR) counted; the time-window edge is handled by accepting both verdicts when the server's clock reading inside the exchange could fall on either side.",
+    _S + " Wall clock bracketed by readings before/after the call.", "§4 C10")
+CHECKS["C11"] = ("vcheck", "proptest messages signed through the Writer in all three modes; MAC equality with an independent RFC 8945 digest composition; verification differential at fudge boundaries, every truncation length, and single-octet corruption at every position (thorough) judged by a reference verifier",
+    "Generated search with shrinking; evaluations are individual verifications (about 60 per message in quick, every octet position in thorough).",
+    "Trusts the hmac/sha1/sha2 crates as primitives (vector-checked); composition is vmodel::tsig.", "§4 C11")
+
 NOT_YET = {}
 
 def main():
